@@ -85,7 +85,7 @@ def run(chk, replay=None):
         for mode in ("nbns-udp", "nbns-server", "nbns-tcp", "llmnr-server"):
             jobs.append(("c18.free", None, {"mode": mode, "clients": 6, "requests": per, "rounds": rounds, "seed": chk.seed,
                                             "trace": os.path.join(d, mode + ".trace")}, "free_" + mode, True))
-        jobs.append(("c18.free", None, {"mode": "llmnr-client", "clients": 10, "rounds": 2 if tier == "quick" else 8, "seed": chk.seed,
+        jobs.append(("c18.free", None, {"mode": "llmnr-client", "clients": 10, "rounds": 4 if tier == "quick" else 8, "seed": chk.seed,
                                         "trace": os.path.join(d, "llmnr-client.trace")}, "free_llmnr-client", True))
 
         # ---- specification growth (drift only): what the servers ANSWER = packet layer composed with the name table
